@@ -5,6 +5,7 @@ mod par;
 mod sched;
 
 use par::*;
+use par::max_record_extent;
 use serde_json::{json, Value};
 use std::collections::BTreeMap;
 use vcore::{Check, Opts, Rng, RunResult, Stats, Tier, Violation};
@@ -61,7 +62,7 @@ fn judge(id: &str, scn: &ParScn, o: &Outcome, st: &mut Stats) -> Vec<Violation> 
     let h = &o.hist;
     let mut add = |rule: &str, d: String| all.push(Violation::new(rule, d));
     let generic = matches!(scn.api, Api::Generic | Api::GenericInit);
-    let per_record = matches!(scn.api, Api::Fasta | Api::Fastq | Api::FastaInit | Api::FastqInit);
+    let per_record = matches!(scn.api, Api::Fasta | Api::Fastq | Api::FastaInit | Api::FastqInit | Api::Records);
     let init_fault = scn.fail_reader_init || scn.fail_dataset_init_at.is_some() || scn.fail_record_init_at.is_some();
     let q = scn.queue_len.max(1);
 
@@ -383,6 +384,40 @@ fn judge(id: &str, scn: &ParScn, o: &Outcome, st: &mut Stats) -> Vec<Violation> 
     }
     if h.bytes_bound_checked > 0 {
         st.probe("probe.bytes_pulled_bound_checked");
+    }
+    // per-record outputs are recycled with their data set: each of the queue_len+1 sets creates at
+    // most as many outputs as its largest batch had records
+    if matches!(scn.api, Api::FastaInit | Api::FastqInit) && !init_fault {
+        let mut max_batch = 0usize;
+        let mut run = 0usize;
+        let mut prev: Option<u32> = None;
+        for a in &h.arrivals {
+            if let Arrival::Rec { tag, .. } = a {
+                if prev == Some(*tag) {
+                    run += 1;
+                } else {
+                    run = 1;
+                }
+                prev = Some(*tag);
+                max_batch = max_batch.max(run);
+            }
+        }
+        if drain && h.record_inits as usize > (q + 1) * max_batch.max(1) {
+            add("C16.too_many_record_outputs", format!("{} per-record outputs were created although the {} data sets never held more than {} records at once", h.record_inits, q + 1, max_batch));
+        }
+        if max_batch >= 257 {
+            st.probe("probe.batches_of_hundreds_of_records");
+        }
+    }
+    if scn.api == Api::Records && !init_fault && scn.io_fault_at.is_none() {
+        // same bound for parallel_records(), with the batch size bounded through the buffer size
+        let ext = max_record_extent(&scn.input).max(1);
+        let min_ext = scn.input.len().checked_div(scn.input.matches("\n@r").count() + 1).unwrap_or(1).max(4);
+        let cap_eff = scn.cap.max(3).max(2 * (ext + 2));
+        let bound = (q + 1) * (cap_eff / min_ext.min(ext).max(1) + 2) * 2;
+        if h.record_inits as usize > bound {
+            add("C16.too_many_record_outputs", format!("parallel_records created {} per-record outputs; {} data sets with at most ~{} records each cannot need more than {}", h.record_inits, q + 1, cap_eff / min_ext.max(1) + 2, bound));
+        }
     }
     if h.fills_ok > q + 1 {
         st.probe("probe.recycling_needed");
